@@ -168,7 +168,8 @@ Crash ==
     /\ runs' = [s \in Sessions |-> IF runs[s] = <<>> THEN <<>> ELSE <<2>>]  \* finished: a restarted authority never resumes a run
     /\ tmtx' = [k \in Tasks |-> None] /\ pump' = [k \in Tasks |-> [p \in Pumps |-> -1]]
     /\ tseq' = [k \in Tasks |-> 99]      \* tasks do not survive a restart
-    /\ UNCHANGED <<log, side, cur, exists, acked>>
+    /\ exists' = {t \in Threads : TruthLen(t) > 0}   \* a child exists after a crash iff its creation frame is on disk
+    /\ UNCHANGED <<log, side, cur, acked>>
 
 Restart == ~up /\ up' = TRUE /\ UNCHANGED <<log, side, next, mtx, pc, cur, exists, acked, crashes, runs, tseq, tmtx, pump>>
 
